@@ -232,6 +232,24 @@ theorem html5_old_roundtrip_partial (T : Tbl) (h : TblOK T = true) (h5 : Html5OK
 example : readText BS.Gen.C09.htmlTable false 0 (substHtml5Old BS.Gen.C09.htmlTable (ofS "&lt;<& &&#60;a&;")) = ofS "&lt;<& &&#60;a&;" :=
   html5_old_roundtrip_partial _ tblOK_live html5OK_live _ _ (by decide +kernel)
 
+/-- The old function computes the same output as the repaired one — hence round-trips as text **and** as attribute
+    value — on every string where, at each `&`, "an entity body follows" (all the old first pass looked at) coincides
+    with the repaired decision; i.e. no `&` is followed by `#` without a complete numeric reference, by a name with `-`/`.`
+    and `;`, by a known name without `;`, or by a semicolon-optional name as a prefix. -/
+theorem html5_old_eq_fixed (T : Tbl) (h5 : Html5OK T = true) (s : PStr) (hs : ampsAgree T s = true) :
+    substHtml5Old T s = substHtml5 T s :=
+  let ⟨hw, hd, _, _⟩ := html5OK_spec h5
+  old_eq_fixed_of_agree hw hd s hs
+
+theorem html5_old_roundtrip_of_agree (T : Tbl) (h : TblOK T = true) (h5 : Html5OK T = true) (hf : Html5FixOK T = true)
+    (late : Bool) (s : PStr) (hs : ampsAgree T s = true) :
+    readText T late 0 (substHtml5Old T s) = s ∧ readAttr T (quoteAttr (substHtml5Old T s)) = some s := by
+  rw [html5_old_eq_fixed T h5 s hs]
+  exact ⟨html5_text_roundtrip T h hf late s, html5_attr_roundtrip T h hf s⟩
+
+example : ampsAgree BS.Gen.C09.htmlTable (ofS "a &foo b &amp; & &1 <") = true ∧
+    ampsAgree BS.Gen.C09.htmlTable (ofS "&lt x") = false := by decide +kernel
+
 /-- Refutation 1 (finding `C09-html5-bare-legacy-ref`): the old function writes `&lt x` unchanged and it is read back as
     `< x`, both as text and as an attribute value. -/
 theorem html5_old_not_reversible_legacy_ref :
